@@ -1,9 +1,281 @@
-"""Best-effort search for a concrete failing input on the real code (never decides a property)."""
+"""Best-effort search for a concrete failing input on the real code.
+
+It never decides a property: a VIOLATION is decided by a failed Verus obligation. This module only tries to turn
+that obligation into an input that can be replayed: boundary-value inputs are run through the replay driver
+(/verif/replay, linked against the current /repo) and compared with a Python big-integer / Fraction oracle.
+"""
+import itertools
+import json
+import os
+import random
+import subprocess
+from fractions import Fraction
+from math import gcd
+
+HERE = os.path.dirname(os.path.abspath(__file__))
+ROOT = os.path.dirname(HERE)
+TARGET = os.path.join(ROOT, "build", "replay-target")
+BIN = os.path.join(TARGET, "release", "vreplay")
+NAN = "너무 커엇..."
+B = 1 << 32
+
+
+def build():
+    crate = os.path.join(ROOT, "replay")
+    env = dict(os.environ, CARGO_NET_OFFLINE="true")
+    lock = os.path.join(os.environ.get("VERIF_REPO", "/repo"), "Cargo.lock")
+    p = subprocess.run(["cargo", "build", "--release", "--offline", "--target-dir", TARGET], cwd=crate, env=env,
+                       stdout=subprocess.PIPE, stderr=subprocess.STDOUT, text=True, timeout=900)
+    return p.returncode == 0, p.stdout[-2000:]
+
+
+def run_lines(lines, timeout=300):
+    p = subprocess.run([BIN], input="\n".join(lines) + "\n", stdout=subprocess.PIPE, stderr=subprocess.PIPE, text=True,
+                       timeout=timeout)
+    return p.stdout.split("\n")[:len(lines)]
+
+
+def enc_big(n):
+    sign = "+" if n >= 0 else "-"
+    m = abs(n)
+    limbs = []
+    while True:
+        limbs.append(m % B)
+        m //= B
+        if m == 0:
+            break
+    return sign + ":" + ",".join(str(x) for x in limbs)
+
+
+def enc_num(q):
+    if q is None:
+        return "NaN"
+    return enc_big(q.numerator) + "/" + enc_big(q.denominator)
+
+
+def show_num(q):
+    if q is None:
+        return NAN
+    return str(q.numerator) if q.denominator == 1 else "%d/%d" % (q.numerator, q.denominator)
+
+
+def tdiv(a, b):
+    q = abs(a) // abs(b)
+    return q if (a >= 0) == (b > 0) else -q
+
+
+def ints(seed, big=True):
+    limbs = [0, 1, 2, 0x7FFFFFFF, 0x80000000, 0xFFFFFFFE, 0xFFFFFFFF]
+    vals = set()
+    for a in limbs:
+        vals.add(a)
+    for a in limbs:
+        for b in [1, 0x80000000, 0xFFFFFFFF]:
+            vals.add(a + b * B)
+    rnd = random.Random(seed)
+    if big:
+        for _ in range(6):
+            k = rnd.choice([2, 3, 4])
+            vals.add(sum(rnd.choice(limbs + [rnd.getrandbits(32)]) * B ** i for i in range(k)) | (1 << (32 * (k - 1))))
+    out = sorted(vals)
+    return out + [-v for v in out if v]
+
+
+def fracs(seed):
+    rnd = random.Random(seed)
+    small = [0, 1, 2, 3, 4, 6, 10, 0xFFFFFFFF, B, B + 1, 3 * B]
+    out = []
+    for u in small + [-x for x in small if x]:
+        for d in [1, 2, 3, 4, 6, 0xFFFFFFFF, B, 6 * B]:
+            out.append(Fraction(u, d))
+    for _ in range(8):
+        out.append(Fraction(rnd.getrandbits(70) - (1 << 69), rnd.getrandbits(40) + 1))
+    seen = []
+    for f in out:
+        if f not in seen:
+            seen.append(f)
+    return seen + [None]
+
+
+def cmp_s(a, b):
+    return "Less" if a < b else ("Equal" if a == b else "Greater")
+
+
+def cases_for(op, seed):
+    """yield (line, expected, pretty input)"""
+    if op == "big.new":
+        for n in [0, 1, -1, 5, -5, 2 ** 31, -2 ** 31, 2 ** 32 - 1, 2 ** 32, -(2 ** 32), 2 ** 32 + 7, 2 ** 62, 2 ** 63 - 1,
+                  -(2 ** 63) + 1, -(2 ** 63)]:
+            yield ("big.new\t%d" % n, str(n), {"op": "BigNum::new", "n": n})
+        return
+    if op.startswith("big."):
+        name = op[4:]
+        vals = ints(seed)
+        if name in ("neg", "show"):
+            for a in vals:
+                yield ("%s\t%s" % (op, enc_big(a)), str(-a if name == "neg" else a), {"op": op, "a": a})
+            return
+        pairs = list(itertools.product(vals, vals))
+        if name in ("div", "rem", "gcd", "div_assign", "rem_assign"):
+            rnd = random.Random(seed + 1)
+            rnd.shuffle(pairs)
+            pairs = pairs[:1500]
+        for a, b in pairs:
+            if name in ("div", "rem", "div_assign", "rem_assign") and b == 0:
+                continue
+            base = name.replace("_assign", "")
+            if base == "add":
+                e = str(a + b)
+            elif base == "sub":
+                e = str(a - b)
+            elif base == "mul":
+                e = str(a * b)
+            elif base == "div":
+                e = str(tdiv(a, b))
+            elif base == "rem":
+                e = str(a - tdiv(a, b) * b)
+            elif base == "gcd":
+                e = ("abs", gcd(a, b))
+            elif base == "eq":
+                e = "true" if a == b else "false"
+            elif base == "cmp":
+                e = cmp_s(a, b)
+            else:
+                continue
+            yield ("%s\t%s\t%s" % (op, enc_big(a), enc_big(b)), e, {"op": op, "a": a, "b": b})
+        return
+    if op == "num.new":
+        for u in [0, 1, -1, 2, -10, 10, 6, -6, 2 ** 31, -(2 ** 31), 2 ** 32 + 2, 2 ** 40]:
+            for d in [0, 1, 2, 4, 3, 6, 2 ** 31, 2 ** 32, 2 ** 33]:
+                if u == 0 and d == 0:
+                    continue
+                e = NAN if d == 0 else show_num(Fraction(u, d))
+                yield ("num.new\t%d\t%d" % (u, d), e, {"op": "Num::new", "up": u, "down": d})
+        return
+    fs = fracs(seed)
+    name = op[4:]
+    if name in ("show", "neg", "minus", "flip", "floor", "is_pos", "is_nan", "roundtrip"):
+        for a in fs:
+            if name == "show":
+                e = show_num(a)
+            elif name in ("neg", "minus"):
+                e = show_num(None if a is None else -a)
+            elif name == "flip":
+                e = show_num(None if (a is None or a == 0) else 1 / a)
+            elif name == "floor":
+                if a is None or a < 0:
+                    continue
+                e = str(a.numerator // a.denominator)
+            elif name == "is_pos":
+                e = "true" if (a is not None and a >= 0) else "false"
+            elif name == "is_nan":
+                e = "true" if a is None else "false"
+            else:
+                e = show_num(a) + " true"
+            yield ("%s\t%s" % (op, enc_num(a)), e, {"op": op, "a": show_num(a)})
+        return
+    for a, b in itertools.product(fs, fs):
+        if name == "add":
+            e = show_num(None if (a is None or b is None) else a + b)
+        elif name == "mul":
+            e = show_num(None if (a is None or b is None) else a * b)
+        elif name == "eq":
+            e = "true" if (a == b) else "false"
+            if a is None or b is None:
+                continue
+        elif name == "cmp":
+            e = "None" if (a is None or b is None) else cmp_s(a, b)
+        else:
+            continue
+        yield ("%s\t%s\t%s" % (op, enc_num(a), enc_num(b)), e, {"op": op, "a": show_num(a), "b": show_num(b)})
+
+
+OPS = {
+    "BigNum::new": ["big.new"],
+    "BigNum::from_vec": ["big.show"], "BigNum::shrink_to_fit": ["big.show", "big.add", "big.sub"],
+    "BigNum::zero": ["big.show"], "BigNum::one": ["big.show"], "BigNum::is_zero": ["big.neg", "big.eq"],
+    "BigNum::is_pos": ["big.cmp"], "BigNum::to_int": ["big.show"],
+    "BigNum::add_core": ["big.add", "big.sub"], "BigNum::sub_core": ["big.add", "big.sub"],
+    "BigNum::less_core": ["big.cmp", "big.sub", "big.div"],
+    "BigNum::mult_core": ["big.mul"], "BigNum::div_core": ["big.div"],
+    "BigNum::minus": ["big.neg", "big.add", "big.mul"], "BigNum::neg": ["big.neg"],
+    "BigNum::add": ["big.add"], "BigNum::sub": ["big.sub"], "BigNum::mul": ["big.mul"], "BigNum::div": ["big.div"],
+    "BigNum::rem": ["big.rem"], "BigNum::gcd": ["big.gcd"],
+    "BigNum::set_copy": ["big.add_assign"], "BigNum::set_move": ["big.add_assign"],
+    "op_add_BigNum": ["big.add"], "op_sub_BigNum": ["big.sub"], "op_mul_BigNum": ["big.mul"],
+    "op_div_BigNum": ["big.div"], "op_rem_BigNum": ["big.rem"], "op_neg_BigNum": ["big.neg"],
+    "op_add_assign_BigNum": ["big.add_assign"], "op_sub_assign_BigNum": ["big.sub_assign"],
+    "op_mul_assign_BigNum": ["big.mul_assign"], "op_div_assign_BigNum": ["big.div_assign"],
+    "op_rem_assign_BigNum": ["big.rem_assign"],
+    "PartialEq_for_BigNum::eq": ["big.eq"], "bignum_partial_cmp": ["big.cmp"],
+    "Num::new": ["num.new"], "Num::from_num": ["num.new"], "Num::from_big_num": ["num.show"],
+    "Num::optimize": ["num.new", "num.show", "num.add", "num.mul"],
+    "Num::zero": ["num.show"], "Num::one": ["num.show"], "Num::nan": ["num.show", "num.is_nan"],
+    "Num::floor": ["num.floor"], "Num::is_pos": ["num.is_pos"], "Num::is_nan": ["num.is_nan"],
+    "Num::minus": ["num.minus"], "Num::flip": ["num.flip"], "Num::add": ["num.add"], "Num::mul": ["num.mul"],
+    "Num::neg": ["num.neg"], "Num::set_copy": ["num.add"], "Num::set_move": ["num.add"],
+    "op_add_Num": ["num.add"], "op_mul_Num": ["num.mul"], "op_neg_Num": ["num.neg"],
+    "op_add_assign_Num": ["num.add"], "op_mul_assign_Num": ["num.mul"],
+    "num_partial_cmp": ["num.cmp"],
+}
+
+PROP_OPS = {
+    "C05": ["big.new", "big.add", "big.sub", "big.mul", "big.div", "big.rem", "big.neg", "big.eq", "big.cmp", "big.gcd",
+            "big.add_assign", "big.sub_assign", "big.mul_assign", "big.div_assign", "big.rem_assign"],
+    "C06": ["num.new", "num.show", "num.add", "num.mul", "num.neg", "num.minus", "num.flip", "num.floor", "num.is_pos",
+            "num.is_nan", "num.eq"],
+    "C07": ["num.cmp"],
+    "C09": [],
+}
+
+
+def matches(got, exp):
+    if isinstance(exp, tuple) and exp[0] == "abs":
+        return got.lstrip("-") == str(exp[1])
+    return got == exp
+
+
+def search_ops(ops, seed):
+    ok, log = build()
+    if not ok:
+        return {"input": None, "note": "replay driver did not build: " + log[-400:]}
+    tried = 0
+    for op in ops:
+        cases = list(cases_for(op, seed))
+        if not cases:
+            continue
+        outs = run_lines([c[0] for c in cases])
+        for (line, exp, pretty), got in zip(cases, outs):
+            tried += 1
+            if not matches(got, exp):
+                return {"input": pretty, "replay_line": line, "expected": exp if not isinstance(exp, tuple) else "|x| = %d" % exp[1],
+                        "got": got, "note": "found by boundary-value replay against the Python oracle (%d inputs tried)" % tried}
+    return {"input": None, "note": "boundary-value replay found no failing input (%d inputs, ops %s)" % (tried, ",".join(ops))}
 
 
 def search(prop, region, seed, tier):
-    return {"input": None, "note": "no concrete search implemented for %s" % region}
+    ops = OPS.get(region)
+    if not ops:
+        return {"input": None, "note": "no replay operation is mapped to %s" % region}
+    return search_ops(ops, seed)
 
 
 def search_property(prop, seed, tier):
-    return None
+    ops = PROP_OPS.get(prop)
+    if not ops:
+        return None
+    return search_ops(ops, seed)
+
+
+def replay_doc(doc):
+    """Re-run the stored failing input; return (still_fails, text)."""
+    fi = doc.get("failing_input")
+    if not fi or "replay_line" not in fi:
+        return None, "replay file carries no concrete input (%s)" % (doc.get("search_note") or "no-failing-input-found")
+    ok, log = build()
+    if not ok:
+        return None, "replay driver did not build"
+    got = run_lines([fi["replay_line"]])[0]
+    exp = fi["expected"]
+    still = (got != exp) if not str(exp).startswith("|x|") else (got.lstrip("-") != str(exp).split("= ")[1])
+    return still, "input %s: expected %s, real code returns %s" % (json.dumps(fi["input"], ensure_ascii=False), exp, got)
